@@ -239,7 +239,7 @@ func Safe(f func()) (panicked string) {
 	return ""
 }
 
-// Lines feeds every non-empty stdin line to f; output is buffered and flushed at the end.
+// Lines feeds every non-empty stdin line to f; output is flushed after every line.
 func Lines(f func(line string, out *bufio.Writer)) {
 	in := bufio.NewReaderSize(os.Stdin, 1<<20)
 	out := bufio.NewWriterSize(os.Stdout, 1<<20)
@@ -249,6 +249,7 @@ func Lines(f func(line string, out *bufio.Writer)) {
 		l := strings.TrimSpace(line)
 		if l != "" {
 			f(l, out)
+			out.Flush() // per line: if the process dies on the next input, everything before it is out
 		}
 		if err != nil {
 			return
